@@ -10,6 +10,7 @@ import (
 	"math/rand"
 	"os"
 	"path/filepath"
+	"reflect"
 	"regexp"
 	"sort"
 	"strings"
@@ -36,7 +37,7 @@ func TestMain(m *testing.M) { vstat.Main(m) }
 
 const ruleCreate = "create cluster --insecure-keys through the real CLI (cmd.New) into a temp dir: nodes 3..10, threshold default or 2..n, validators 1..3, network in {goerli, sepolia, hoodi, gnosis, chiado}, deposit amounts default or partial sets, compounding on/off; " +
 	"oracle: every node's lock is identical and passes VerifyHashes + VerifySignatures, keystore i/j decrypts to a secret whose public key is lock.validators[j].public_shares[i], every deposit datum and builder registration verifies (harness-side spec verification) for the lock's validator key / amount / withdrawal credentials, a drawn t-subset of shares recombines to the validator key, combine output keystores match; non-trivial = t < n or > 1 deposit amount or > 1 validator; distinct by configuration"
-const ruleTamper = "tamper evidence: valid locks (cluster.NewForT for v1.10 / v1.11, the committed cluster/examples locks v1.1, v1.2, v1.7: full hash+signature verification; the per-version golden locks v1.0..v1.11: hash verification) x every leaf of the JSON document x representative alteration (hex nibble flip, character change, +-1, bool flip, element removed / duplicated / swapped); altered document must fail to unmarshal, or fail VerifyHashes, or fail VerifySignatures; " +
+const ruleTamper = "tamper evidence: valid locks (cluster.NewForT for v1.10 / v1.11, the committed cluster/examples locks v1.1, v1.2, v1.7: full hash+signature verification; the per-version golden locks v1.0..v1.11: hash verification) x every leaf of the JSON document x representative alteration (hex nibble flip, character change, +-1, bool flip, value emptied / zeroed, key removed, element removed / duplicated / swapped); altered document must fail to unmarshal, or fail VerifyHashes, or fail VerifySignatures; " +
 	"leaves outside the hashed / signed declaration (operator nonce of v1.0/v1.1; signature fields in hash-only mode) assert nothing; non-trivial = every (base, path, alteration)"
 
 var forkVersions = map[string]string{"goerli": "00001020", "gnosis": "00000064", "chiado": "0000006f", "sepolia": "90000069", "hoodi": "10000910"}
@@ -405,6 +406,24 @@ var unhashed = regexp.MustCompile(`\.nonce$`)
 var signatureOnly = regexp.MustCompile(`^\.(signature_aggregate|node_signatures)`)
 
 func alterScalar(cur any, kind string, pos int) (any, bool) {
+	if kind == "empty" {
+		switch v := cur.(type) {
+		case string:
+			if v == "" || v == "0x" {
+				return nil, false
+			}
+			if strings.HasPrefix(v, "0x") && pos%2 == 1 {
+				return "0x", true
+			}
+			return "", true
+		case json.Number:
+			if string(v) == "0" {
+				return nil, false
+			}
+			return json.Number("0"), true
+		}
+		return nil, false
+	}
 	switch v := cur.(type) {
 	case string:
 		if v == "" {
@@ -448,6 +467,13 @@ func alterScalar(cur any, kind string, pos int) (any, bool) {
 		return !v, true
 	}
 	return nil, false
+}
+
+func legacyNoAggregate(root any) bool {
+	m, _ := root.(map[string]any)
+	def, _ := m["cluster_definition"].(map[string]any)
+	v, _ := def["version"].(string)
+	return v == "v1.0.0" || v == "v1.1.0"
 }
 
 func TestC12Tamper(t *testing.T) {
@@ -511,6 +537,28 @@ func TestC12Tamper(t *testing.T) {
 				}
 			}
 			set(na)
+		} else if kind == "removeKey" {
+			m, ok := target.parent.(map[string]any)
+			if !ok {
+				return false, true
+			}
+			switch v := m[target.key].(type) { // removing a zero value changes nothing
+			case nil:
+				return false, true
+			case string:
+				if v == "" || v == "0x" || v == "0" { // "0": integers carried as strings (amount)
+					return false, true
+				}
+			case json.Number:
+				if string(v) == "0" {
+					return false, true
+				}
+			case bool:
+				if !v {
+					return false, true
+				}
+			}
+			delete(m, target.key)
 		} else {
 			nv, ok := alterScalar(get(), kind, pos)
 			if !ok {
@@ -521,11 +569,23 @@ func TestC12Tamper(t *testing.T) {
 		if unhashed.MatchString(path) || (!b.full && signatureOnly.MatchString(path)) {
 			return false, false
 		}
+		if (kind == "empty" || kind == "removeKey") && path == ".signature_aggregate" && legacyNoAggregate(root) {
+			// declared tolerance of the format: v1.0 / v1.1 locks were written without an aggregate
+			// signature and verify without one
+			return false, false
+		}
 		doc, err := json.Marshal(root)
 		if err != nil {
 			fail("HARNESS-ERROR: %v", err)
 		}
 		if err := verifyLock(doc, b.full); err == nil {
+			// An alteration of the text that decodes to the identical value (unused trailing bits of a
+			// base64 string, letter case of hex digits) changes no field.
+			var l0, l1 cluster.Lock
+			if json.Unmarshal(b.doc, &l0) == nil && json.Unmarshal(doc, &l1) == nil && reflect.DeepEqual(l0, l1) {
+				vstat.Count("alteration_decodes_to_same_value(no assertion)", 1)
+				return false, false
+			}
 			fail("TAMPERING UNDETECTED: %s: %s altered (%s) and the lock still decodes and verifies (hashes%s)", b.name, path, kind, map[bool]string{true: " and signatures", false: ""}[b.full])
 		}
 		return true, false
@@ -540,8 +600,11 @@ func TestC12Tamper(t *testing.T) {
 			var ls, arrs []leaf
 			collectLeaves(root, "", nil, "", 0, &ls, &arrs)
 			for _, l := range ls {
-				for _, kind := range []string{"plus1", "flip"} {
+				for _, kind := range []string{"plus1", "flip", "empty", "removeKey"} {
 					for _, pos := range []int{0, 3, 17} {
+						if (kind == "empty" && pos > 3) || (kind == "removeKey" && pos > 0) {
+							continue
+						}
 						if a, _ := check(func(f string, a ...any) { t.Fatalf(f, a...) }, b, l.path, kind, pos, false); a {
 							vstat.Case(fmt.Sprintf("%s|%s|%s|%d", b.name, l.path, kind, pos), true, "tamper_leaf", "base:"+b.name)
 						}
@@ -575,7 +638,7 @@ func TestC12Tamper(t *testing.T) {
 			kind = rapid.SampledFrom([]string{"remove", "duplicate", "swap"}).Draw(rt, "arrayKind")
 		} else {
 			path = ls[rapid.IntRange(0, len(ls)-1).Draw(rt, "leaf")].path
-			kind = rapid.SampledFrom([]string{"plus1", "flip"}).Draw(rt, "kind")
+			kind = rapid.SampledFrom([]string{"plus1", "flip", "plus1", "flip", "empty", "removeKey"}).Draw(rt, "kind")
 		}
 		pos := rapid.IntRange(0, 200).Draw(rt, "pos")
 		asserted, skipped := check(func(f string, a ...any) { rt.Fatalf(f, a...) }, b, path, kind, pos, arrayOp)
